@@ -270,6 +270,41 @@ func c08ContentUndec(r c08Rec, ctx c08Ctx) string {
 	return ""
 }
 
+// c08First: number of records and (epoch, sequence number) of the first legacy record of the last classified datagram
+type c08Info struct {
+	nrec  int
+	epoch int
+	seq   uint64
+	leg   bool
+}
+
+func c08ClassifyInfo(d []byte, ctx c08Ctx) (string, c08Info) {
+	recs, why := c08Split(d, ctx)
+	info := c08Info{nrec: len(recs)}
+	if why == "" && len(recs) > 0 && !recs[0].uni && len(recs[0].raw) >= 13 {
+		info.leg = true
+		info.epoch = recs[0].epoch
+		for _, x := range recs[0].raw[5:11] {
+			info.seq = info.seq<<8 | uint64(x)
+		}
+	}
+
+	return c08Classify(d, ctx), info
+}
+
+func c08Fresh(c *Conn, info c08Info) bool {
+	if !info.leg {
+		return true
+	}
+	common := dtlsstate.CommonState(c.state)
+	if info.epoch >= len(common.ReplayDetector) {
+		return true
+	}
+	_, ok := common.ReplayDetector[info.epoch].Check(info.seq)
+
+	return ok
+}
+
 func c08Classify(d []byte, ctx c08Ctx) string {
 	if len(d) == 0 {
 		return "empty"
@@ -359,6 +394,8 @@ type c08Obs struct {
 	Effect c08Effect `json:"eff"`
 	Hex    string    `json:"hex,omitempty"`
 	N      int       `json:"n"` // how many injections of this case had the same (est, class, effect key)
+	NRec   int       `json:"nrec"`  // records in the datagram (0 when it does not split)
+	Fresh  bool      `json:"fresh"` // the first record's number passes the target's replay check
 }
 
 type c08Res struct {
@@ -461,6 +498,8 @@ func (s *c08Sess) inject(target string, data []byte, class, gen string) c08Effec
 	}
 	est := p.Conn.isHandshakeCompletedSuccessfully()
 	ctxV13 := c08CtxOf(p.Conn).v13
+	_, info := c08ClassifyInfo(data, c08CtxOf(p.Conn))
+	fresh := c08Fresh(p.Conn, info)
 	before := s.lab.Net.count()
 	hsDone := p.handshakeDone()
 	closed := p.Conn.isConnectionClosed()
@@ -491,7 +530,7 @@ func (s *c08Sess) inject(target string, data []byte, class, gen string) c08Effec
 			ev := (*sink)[i]
 			if ev.err != "" {
 				eff.ReadErr = ev.err
-			} else if !s.wrote[string(ev.payload)] {
+			} else if !s.wrote[string(ev.payload)] && !c08Wrote[string(ev.payload)] {
 				eff.Deliv = true
 			}
 		}
@@ -505,12 +544,12 @@ func (s *c08Sess) inject(target string, data []byte, class, gen string) c08Effec
 	if !c08IsDrop(class) {
 		s.res.DropOnly = false
 	}
-	k := fmt.Sprintf("%v|%s|%s", est, class, eff.key())
+	k := fmt.Sprintf("%v|%s|%s|%d|%v", est, class, eff.key(), min(info.nrec, 2), fresh)
 	if i, ok := s.obsIdx[k]; ok {
 		s.res.Obs[i].N++
 	} else {
 		s.obsIdx[k] = len(s.res.Obs)
-		o := c08Obs{Est: est, V13: ctxV13, Class: class, Gen: gen, Effect: eff, N: 1}
+		o := c08Obs{Est: est, V13: ctxV13, Class: class, Gen: gen, Effect: eff, N: 1, NRec: info.nrec, Fresh: fresh}
 		if !eff.none() || len(s.res.Obs) < 2 {
 			o.Hex = vHex(data)
 		}
@@ -883,6 +922,7 @@ func c08CBCRecord(rng *vRand, sender *Conn, v c08Variant, mode int) (rec []byte,
 		return nil, "", err
 	}
 	content := []byte("c08-cbc-" + strconv.Itoa(rng.intn(1000)))
+	c08Wrote[string(content)] = true
 	ct := byte(23)
 	hdr := make([]byte, 13)
 	hdr[0], hdr[1], hdr[2] = ct, 0xfe, 0xfd
@@ -984,6 +1024,41 @@ func c08CBCSplice(rng *vRand, genuine []byte) []byte {
 
 // ---------------------------------------------------------------- cases
 
+var c08Wrote = map[string]bool{"": true} //nolint:gochecknoglobals // payloads an authenticated sender really sent (incl. the empty one)
+
+type c08CorpusItem struct{ name, hex string }
+
+// regression corpus: earlier crashing inputs and the minimal inputs of every finding of this check
+var c08Corpus = []c08CorpusItem{ //nolint:gochecknoglobals
+	{"F1-zero-frag-offset1", "16fefd0000000000000001000c0e0000000000000001000000"},
+	{"F1-zero-frag-offset1-seq", "16fefd000000000000ff01000c0e0000000001000001000000"},
+	{"one-byte-unified-2c", "2c"},
+	{"unified-cidbit", "300000"},
+	{"unified-short", "2f0001"},
+	{"one-byte-00", "00"},
+	{"appdata-first-byte-only", "17"},
+	{"unknown-content-type-99", "63fefd000000000000f00500010a"},
+	{"alert-1byte", "15fefd000000000000f0060001ff"},
+	{"ccs-2", "14fefd000000000000f007000102"},
+	{"ack-epoch0-bad", "1afefd000000000000f008000100"},
+	{"cid-type-epoch0", "19fefd000000000000f0090003010203"},
+	{"F3-cke-2byte-mseq1", "16fefd000000000000ff02000e1000000200010000000000020000"},
+	{"F3-cke-2byte-mseq2", "16fefd000000000000ff03000e1000000200020000000000020000"},
+	{"F3-cke-2byte-mseq3", "16fefd000000000000ff04000e1000000200030000000000020000"},
+	{"hs-header-only", "16fefd000000000000ff05000c010000000000000000000000"},
+	{"hs-giant", "16fefd000000000000ff06000d0bffffff0001000000000001aa"},
+}
+
+func c08Hex(h string) []byte {
+	b := make([]byte, len(h)/2)
+	for i := range b {
+		v, _ := strconv.ParseUint(h[2*i:2*i+2], 16, 8)
+		b[i] = byte(v)
+	}
+
+	return b
+}
+
 type c08Case struct {
 	ID      int
 	Variant string
@@ -1020,6 +1095,52 @@ func (s *c08Sess) batch(c c08Case, rng *vRand, target string, pending []byte) {
 		case "raw":
 			d := c08Raw(rng)
 			s.inject(target, d, c08Classify(d, ctx), "raw")
+		case "corpus":
+			if i >= len(c08Corpus) {
+				return
+			}
+			d := c08Hex(c08Corpus[i].hex)
+			if i > 0 && len(d) >= 13 && d[0] >= 20 && d[0] <= 27 {
+				binary.BigEndian.PutUint32(d[7:], uint32(0x100000+16*i)) //nolint:gosec // increasing: never behind the replay window
+			}
+			s.inject(target, d, c08Classify(d, ctx), "corpus:"+c08Corpus[i].name)
+		case "flood-queue":
+			// forged records claiming the next epoch: each may take one of the 100 queue slots
+			var d []byte
+			if ctx.v13 {
+				d = append([]byte{0x2c | byte((dtlsstate.CommonState(tgt.state).RemoteEpoch()+1)&3), byte(i >> 8), byte(i), 0, 40}, rng.bytes(40)...)
+				if dtlsstate.CommonState(tgt.state).RemoteEpoch() == 0 {
+					d[0] = 0x2c | 2
+				}
+			} else {
+				d = make([]byte, 13, 13+40)
+				d[0], d[1], d[2] = 23, 0xfe, 0xfd
+				binary.BigEndian.PutUint16(d[3:], dtlsstate.CommonState(tgt.state).RemoteEpoch()+1)
+				binary.BigEndian.PutUint32(d[7:], uint32(5000+i)) //nolint:gosec
+				if ctx.cidLen > 0 {
+					d[0] = 25
+					d = append(d[:11], append(append([]byte(nil), dtlsstate.CommonState(tgt.state).LocalConnectionIDForInboundRecords()...), 0, 0)...)
+				}
+				binary.BigEndian.PutUint16(d[len(d)-2:], 40)
+				d = append(d, rng.bytes(40)...)
+			}
+			s.inject(target, d, c08Classify(d, ctx), "flood-queue")
+		case "flood-frag":
+			// small fragments of FUTURE handshake messages that never complete
+			cur := dtlsstate.HandshakeRecvSequence(tgt.state)
+			body := rng.bytes(8)
+			d := append([]byte{22, 0xfe, 0xfd, 0, 0, 0, 0, 0, 0, 0, 0, 0, 0}, c08HsMsg(11, (cur+1+i%60000)&0xffff, body, 4000, 16*(i/60000), len(body))...)
+			binary.BigEndian.PutUint32(d[7:], uint32(9000+i)) //nolint:gosec
+			binary.BigEndian.PutUint16(d[11:], uint16(len(d)-13)) //nolint:gosec
+			s.inject(target, d, c08Classify(d, ctx), "flood-frag")
+		case "flood-cache":
+			// complete, in-order handshake messages after the handshake: every one is reassembled at once
+			cur := dtlsstate.HandshakeRecvSequence(tgt.state)
+			body := rng.bytes(600)
+			d := append([]byte{22, 0xfe, 0xfd, 0, 0, 0, 0, 0, 0, 0, 0, 0, 0}, c08HsMsg(0, (cur+i)&0xffff, body, len(body), 0, len(body))...)
+			binary.BigEndian.PutUint32(d[7:], uint32(9000+i)) //nolint:gosec
+			binary.BigEndian.PutUint16(d[11:], uint16(len(d)-13)) //nolint:gosec
+			s.inject(target, d, c08Classify(d, ctx), "flood-cache")
 		case "mut":
 			src := pending
 			switch {
@@ -1046,8 +1167,11 @@ func (s *c08Sess) batch(c c08Case, rng *vRand, target string, pending []byte) {
 
 				continue
 			}
-			if s.v.CBC > 0 && !peer.state.ShouldWrapConnectionID() && rng.chance(45) {
+			if s.v.CBC > 0 && !peer.state.ShouldWrapConnectionID() && (i < 5 || rng.chance(30)) {
 				mode := rng.intn(5)
+				if i < 5 {
+					mode = []int{4, 0, 2, 3, 1}[i]
+				}
 				d, name, err := c08CBCRecord(rng, peer, s.v, mode)
 				if err != nil {
 					s.res.Note += " cbc:" + err.Error()
@@ -1067,7 +1191,7 @@ func (s *c08Sess) batch(c c08Case, rng *vRand, target string, pending []byte) {
 			}
 			s.inject(target, d, "auth", "prot:"+pl.name)
 		}
-		if s.lab.peer(target).Conn.isConnectionClosed() {
+		if tp := s.lab.peer(target); tp.Conn.isConnectionClosed() || (tp.handshakeDone() && tp.Err != nil) {
 			break
 		}
 	}
@@ -1195,6 +1319,23 @@ func c08Cases(seed uint64, thorough bool) []c08Case {
 				add(v.Name, st, "raw", 10)
 				add(v.Name, st, "mut", 14)
 			}
+			for st := 0; st <= maxStage && r == 0; st++ {
+				add(v.Name, st, "corpus", len(c08Corpus))
+			}
+			if r == 0 {
+				add(v.Name, -1, "corpus", len(c08Corpus))
+				add(v.Name, -1, "corpus", len(c08Corpus))
+				for _, st := range []int{2, 3, 4, 5, -1, -1} {
+					add(v.Name, st, "flood-queue", 130)
+				}
+			}
+			if r == 0 && (v.Name == "psk-gcm" || v.Name == "cert-gcm" || v.Name == "psk-gcm-cid" || v.Name == "v13-aes128") {
+				add(v.Name, -1, "flood-frag", 1100)
+				add(v.Name, -1, "flood-frag", 1100)
+				add(v.Name, 3, "flood-frag", 1100)
+				add(v.Name, -1, "flood-cache", 1300)
+				add(v.Name, -1, "flood-cache", 1300)
+			}
 			add(v.Name, -1, "raw", 12)
 			add(v.Name, -1, "mut", 14)
 			add(v.Name, -1, "mut", 14)
@@ -1241,4 +1382,83 @@ func TestVerifC08(t *testing.T) {
 	runtime.GC()
 	runtime.ReadMemStats(&m1)
 	out.emit(c08Res{Kind: "mem", ID: -1, HeapMB: (float64(m1.HeapAlloc) - float64(m0.HeapAlloc)) / (1 << 20)})
+}
+
+// TestVerifC08Replay delivers ONE datagram (VERIF_C08_REPLAY=variant:stage:target:hex) to `target` just
+// before handshake datagram #stage is delivered (stage -1: after the handshake) and reports what happened.
+func TestVerifC08Replay(t *testing.T) {
+	out := newVOut(t)
+	f := strings.Split(os.Getenv("VERIF_C08_REPLAY"), ":")
+	if len(f) != 4 {
+		t.Skip("VERIF_C08_REPLAY not set")
+	}
+	stage, _ := strconv.Atoi(f[1])
+	target, data := f[2], c08Hex(f[3])
+	vBubble(t, func(t *testing.T) {
+		v := c08VariantByName(f[0])
+		res := c08Res{Kind: "case", ID: -1, Variant: v.Name, Stage: stage, Gen: "replay", Target: target, DropOnly: true}
+		s := &c08Sess{
+			t: t, v: v, out: out, id: -1, res: &res,
+			evs: map[string]*[]c08ReadEv{}, seen: map[string]int{}, wrote: map[string]bool{},
+			reader: map[string]bool{}, obsIdx: map[string]int{},
+		}
+		ccfg, scfg := v.mk()
+		lab := newLab(t, ccfg, scfg)
+		s.lab = lab
+		injected := false
+		lab.Pump.Policy = func(d vDatagram) (vAction, int) {
+			if stage >= 0 && d.Idx == stage && !injected {
+				injected = true
+				s.inject(target, data, c08Classify(data, c08CtxOf(lab.peer(target).Conn)), "replay")
+			}
+
+			return vPass, 0
+		}
+		lab.Pump.run(lab.bothDone, 150*time.Second)
+		res.Done = lab.established()
+		res.CErr, res.SErr = "pending", "pending"
+		if lab.Client.handshakeDone() {
+			res.CErr = vErrString(lab.Client.Err)
+		}
+		if lab.Server.handshakeDone() {
+			res.SErr = vErrString(lab.Server.Err)
+		}
+		lab.Pump.Policy = nil
+		if res.Done {
+			c08StartReader(s, lab.Client)
+			c08StartReader(s, lab.Server)
+			synctest.Wait()
+			if !injected {
+				s.inject(target, data, c08Classify(data, c08CtxOf(lab.peer(target).Conn)), "replay")
+				lab.Pump.run(func() bool { return true }, time.Second)
+			}
+			for _, dir := range [][2]*vPeer{{lab.Client, lab.Server}, {lab.Server, lab.Client}} {
+				from, to := dir[0], dir[1]
+				pl := []byte("c08-replay-echo-" + from.Name)
+				_, werr := from.Conn.Write(pl)
+				got := func() bool {
+					to.rmu.Lock()
+					defer to.rmu.Unlock()
+					for _, ev := range *s.evs[to.Name] {
+						if string(ev.payload) == string(pl) {
+							return true
+						}
+					}
+
+					return false
+				}
+				if werr == nil {
+					lab.Pump.run(got, 3*time.Second)
+				}
+				if from == lab.Client {
+					res.EchoCS = got()
+				} else {
+					res.EchoSC = got()
+				}
+			}
+		}
+		lab.close()
+		out.emit(res)
+		fmt.Printf("REPLAY %+v\n", res)
+	})
 }
